@@ -707,6 +707,8 @@ fn fuzz_phase(ev: &mut Evidence, findings: &Findings, bases: &[(String, FileSet)
         .arg(format!("-seed={seed}"))
         .arg(format!("-dict={}", fuzz_dir.join("xsd.dict").display()))
         .arg(format!("-artifact_prefix={}/", arts.display()))
+        // fork mode keeps its per-job corpora under $TMPDIR: inside the scratch directory, not /tmp
+        .env("TMPDIR", &scratch)
         .current_dir(&scratch)
         .output();
     let log = out.map(|o| String::from_utf8_lossy(&o.stderr).to_string()).unwrap_or_default();
